@@ -546,7 +546,7 @@ __find_trno(const struct zif_s z[static 1U], stamp_t t, int min, int max)
 		return -1;
 	} else if (UNLIKELY(t < zif_trans(z, min))) {
 		return -1;
-	} else if (UNLIKELY(t > zif_trans(z, max))) {
+	} else if (UNLIKELY(t >= zif_trans(z, max))) {
 		return max - 1;
 	}
 
